@@ -566,6 +566,8 @@ def rule_factory(ctx, res):
 
 
 def run(ctx, res):
+    from .c01 import rule_instance_state
+    rule_instance_state(ctx, res, 'R-C02-factory')
     f, cfg, name, paths, stored_val = rule_writeonce(ctx, res)
     site = rule_fresh(ctx, res, f, cfg, name, paths, stored_val)
     if site is not None:
